@@ -64,7 +64,9 @@ func main() {
 						for ki, key := range keys {
 							for kind := 0; kind < 2; kind++ {
 								off, align, key, kind := off, align, key, kind
-								t.Do(func() string { return fmt.Sprintf("Cipher n=%d offset=%d align=%d key#%d fill=%d", n, off, align, ki, kind) }, func() *explore.Fail {
+								t.Do(func() string {
+									return fmt.Sprintf("Cipher n=%d offset=%d align=%d key#%d fill=%d", n, off, align, ki, kind)
+								}, func() *explore.Fail {
 									const guard = 24
 									back := make([]byte, guard+16+n+guard)
 									for i := range back {
@@ -248,7 +250,9 @@ func main() {
 							if failAt >= 0 {
 								// the destination fails once, accepting `partial` bytes; the caller then
 								// resends what was not accepted and carries on
-								t.Do(func() string { return fmt.Sprintf("CipherWriter n=%d writes=%v call %d short by error after %d byte(s), caller resumes", n, cuts, failAt, partial) }, func() *explore.Fail {
+								t.Do(func() string {
+									return fmt.Sprintf("CipherWriter n=%d writes=%v call %d short by error after %d byte(s), caller resumes", n, cuts, failAt, partial)
+								}, func() *explore.Fail {
 									orig := fill(n, 1)
 									d := env.NewDst()
 									d.FailAt, d.Partial, d.Transient = failAt, partial, true
@@ -274,7 +278,9 @@ func main() {
 									return nil
 								})
 							}
-							t.Do(func() string { return fmt.Sprintf("CipherWriter n=%d writes=%v failAt=%d partial=%d", n, cuts, failAt, partial) }, func() *explore.Fail {
+							t.Do(func() string {
+								return fmt.Sprintf("CipherWriter n=%d writes=%v failAt=%d partial=%d", n, cuts, failAt, partial)
+							}, func() *explore.Fail {
 								orig := fill(n, 1)
 								d := env.NewDst()
 								d.FailAt, d.Partial = failAt, partial
@@ -477,7 +483,16 @@ func main() {
 						if failAt >= 0 {
 							d.FailAt, d.Partial, d.Transient = failAt, big/2, true
 						}
-						cw := wsutil.NewCipherWriter(d, key)
+						// the destination looks at the caller's bytes while it is being written to: they are
+						// the caller's at every moment (another writer may be sending the same message)
+						ref := append([]byte{}, orig...)
+						touched := -1
+						watch := &watchDst{inner: d, look: func() {
+							if touched < 0 && !bytes.Equal(orig, ref) {
+								touched = firstDiff(orig, ref)
+							}
+						}}
+						cw := wsutil.NewCipherWriter(watch, key)
 						off := 0
 						for _, k := range []int{prior, big, 5} {
 							chunk := orig[off : off+k]
@@ -496,6 +511,9 @@ func main() {
 								return explore.Failf("caller-slice-modified", "write at %d", off)
 							}
 							off += k
+						}
+						if touched >= 0 {
+							return explore.Failf("caller-slice-modified-while-the-destination-is-written", "byte %d of the caller's slice differed during a destination Write", touched)
 						}
 						if got := d.Bytes(); !bytes.Equal(got, want) {
 							return explore.Failf("large-write-xor-mismatch", "first difference at byte %d of %d (stream offset residue %d)", firstDiff(got, want), total, prior%4)
@@ -627,7 +645,9 @@ func main() {
 			for before := 0; before <= 9; before++ {
 				for _, total := range []int{before, before + 1, before + 11, before + 70000} {
 					before, total := before, total
-					t.Do(func() string { return fmt.Sprintf("CipherReader: %d bytes via Read, the other %d via io.Copy / ReadAll / ReadFull", before, total-before) }, func() *explore.Fail {
+					t.Do(func() string {
+						return fmt.Sprintf("CipherReader: %d bytes via Read, the other %d via io.Copy / ReadAll / ReadFull", before, total-before)
+					}, func() *explore.Fail {
 						data := fill(total, 9)
 						want := refmodel.XOR(data, key, 0)
 						for _, how := range []string{"io.Copy", "io.Copy-to-bytes.Buffer", "io.ReadAll", "io.ReadFull"} {
@@ -871,6 +891,17 @@ type repeatSrc struct {
 func (r *repeatSrc) Read(p []byte) (int, error) {
 	// every Read of the harness asks for a prefix of the block
 	return copy(p, r.block), nil
+}
+
+// watchDst calls look before handing each Write to the inner destination.
+type watchDst struct {
+	inner io.Writer
+	look  func()
+}
+
+func (w *watchDst) Write(p []byte) (int, error) {
+	w.look()
+	return w.inner.Write(p)
 }
 
 // lastDst keeps only the bytes of the last Write.
